@@ -1,6 +1,6 @@
 PROP = {
     "groups": ["tunnel", "tunnel-e2e"],
-    "timeout": 900,
+    "timeout": 300,
     "rule": "group tunnel (real tunnel code through export_verif_tunnel.go on real 127.0.0.1 sockets, in-process): "
             "getHelloConstant on ids of length 0..17 (digits, arbitrary bytes, ':' and '%') x ports incl. 0, negative and 64-bit extremes; "
             "sequential scenarios = trace replay of the interleaving model: 1..7 connections of kinds wrong greeting / right prefix wrong id or port / "
